@@ -288,7 +288,7 @@ def execute(prop, plan, tier, seed, expinfo, t_start):
     workdir = os.path.join(WORK, 'run_%s_%d' % (prop, os.getpid()))
     shutil.rmtree(workdir, ignore_errors=True)
     os.makedirs(workdir)
-    ev_dir = os.path.join(VERIF, 'evidence')
+    ev_dir = os.environ.get('VEKVERIF_EVIDENCE', os.path.join(VERIF, 'evidence'))
     os.makedirs(ev_dir, exist_ok=True)
     violations = []     # dict(tag, backend, msg, ...)
     undecided = []
